@@ -201,8 +201,10 @@ class Config:
 
     @property
     def sendfile(self):
-        if self.settings['sendfile'].get() is not None:
-            return False
+        # an explicit setting (any source) wins over the environment
+        opt = self.settings['sendfile'].get()
+        if opt is not None:
+            return opt
 
         if 'SENDFILE' in os.environ:
             sendfile = os.environ['SENDFILE'].lower()
